@@ -394,6 +394,27 @@ fn bind_arg_holes(shape: &Shape, actuals: &BTreeMap<Rc<str>, Shape>) -> Shape {
                 .collect(),
             flds.pos.clone(),
         )),
+        // A function or module handed back by the call still mentions the
+        // arguments it closed over. Its own arguments hide those of the same name.
+        Shape::Func(fdef) => {
+            let mut visible = actuals.clone();
+            for name in fdef.arg_order.iter() {
+                visible.remove(name);
+            }
+            Shape::Func(FuncShapeDef {
+                args: fdef.args.clone(),
+                arg_order: fdef.arg_order.clone(),
+                ret: Box::new(bind_arg_holes(&fdef.ret, &visible)),
+            })
+        }
+        Shape::Module(mdef) => Shape::Module(ModuleShape {
+            items: mdef
+                .items
+                .iter()
+                .map(|(name, s)| (name.clone(), bind_arg_holes(s, actuals)))
+                .collect(),
+            ret: Box::new(bind_arg_holes(&mdef.ret, actuals)),
+        }),
         _ => shape.clone(),
     }
 }
